@@ -39,3 +39,269 @@ Proof.
   intros H. unfold from_bytes_unchecked. rewrite <- (app_nil_r (byron_to_vec a)). apply minicbor_decode_enc, H.
 Qed.
 End WithSkip.
+
+(* ---------------------------------------------------------------- ranges *)
+Lemma lxor_range n a b : 0 <= n -> 0 <= a < 2 ^ n -> 0 <= b < 2 ^ n -> 0 <= Z.lxor a b < 2 ^ n.
+Proof.
+  intros Hn Ha Hb. split; [apply Z.lxor_nonneg; lia|].
+  destruct (Z.eq_dec a 0) as [->|Ha0]; [rewrite Z.lxor_0_l; lia|].
+  destruct (Z.eq_dec b 0) as [->|Hb0]; [rewrite Z.lxor_0_r; lia|].
+  destruct (Z.eq_dec (Z.lxor a b) 0) as [->|Hz]; [lia|].
+  assert (Hp : 0 < Z.lxor a b) by (pose proof (proj2 (Z.lxor_nonneg a b)); lia).
+  apply Z.log2_lt_pow2; [exact Hp|].
+  pose proof (Z.log2_lxor a b ltac:(lia) ltac:(lia)) as Hl.
+  assert (La : Z.log2 a < n) by (apply Z.log2_lt_pow2; lia).
+  assert (Lb : Z.log2 b < n) by (apply Z.log2_lt_pow2; lia).
+  lia.
+Qed.
+
+Definition state32 (c : Z) : Prop := 0 <= c < 2 ^ 32.
+
+Lemma step_range c : state32 c -> state32 (crc_step c).
+Proof.
+  unfold state32, crc_step. intros Hc.
+  assert (Hs : 0 <= Z.shiftr c 1 < 2 ^ 31).
+  { rewrite Z.shiftr_div_pow2 by lia. change (2 ^ 1) with 2. change (2 ^ 32) with 4294967296 in Hc.
+    change (2 ^ 31) with 2147483648. lia. }
+  destruct (Z.odd c).
+  - apply lxor_range; [lia| |unfold POLY; change (2 ^ 32) with 4294967296; lia].
+    change (2 ^ 31) with 2147483648 in Hs. change (2 ^ 32) with 4294967296. lia.
+  - change (2 ^ 31) with 2147483648 in Hs. change (2 ^ 32) with 4294967296. lia.
+Qed.
+
+Lemma step8_range c : state32 c -> state32 (crc_step8 c).
+Proof. intros H. unfold crc_step8. do 8 apply step_range. exact H. Qed.
+
+Lemma byte_state b : byte b -> state32 b.
+Proof. unfold byte, state32. change (2 ^ 32) with 4294967296. lia. Qed.
+
+Lemma crc_byte_range c b : state32 c -> byte b -> state32 (crc_byte c b).
+Proof.
+  intros Hc Hb. unfold crc_byte. apply step8_range. apply lxor_range; [lia|exact Hc|apply byte_state, Hb].
+Qed.
+
+Lemma crc_reg_range bs : forall c, state32 c -> bytes_wf bs -> state32 (crc_reg c bs).
+Proof.
+  induction bs as [|b r IH]; intros c Hc Hw; [exact Hc|].
+  inversion Hw; subst. cbn [crc_reg fold_left]. apply IH; [apply crc_byte_range; assumption|assumption].
+Qed.
+
+Lemma mask_state : state32 MASK32.
+Proof. unfold state32, MASK32. change (2 ^ 32) with 4294967296. lia. Qed.
+
+Lemma crc32_range bs : bytes_wf bs -> 0 <= crc32 bs < 4294967296.
+Proof.
+  intros H. unfold crc32. change 4294967296 with (2 ^ 32).
+  apply lxor_range; [lia| |apply mask_state]. apply crc_reg_range; [apply mask_state|exact H].
+Qed.
+
+(* ---------------------------------------------------------------- injectivity of the register update *)
+Lemma lxor_cancel_r a b x : Z.lxor a x = Z.lxor b x -> a = b.
+Proof.
+  intros H. apply (f_equal (fun t => Z.lxor t x)) in H.
+  rewrite !Z.lxor_assoc, Z.lxor_nilpotent, !Z.lxor_0_r in H. exact H.
+Qed.
+Lemma lxor_cancel_l a b x : Z.lxor x a = Z.lxor x b -> a = b.
+Proof. rewrite !(Z.lxor_comm x). apply lxor_cancel_r. Qed.
+
+Lemma half_bit31 c : state32 c -> Z.testbit (Z.shiftr c 1) 31 = false.
+Proof.
+  unfold state32. intros Hc. rewrite Z.shiftr_spec by lia. change (31 + 1) with 32.
+  destruct (Z.eq_dec c 0) as [->|]; [apply Z.bits_0|].
+  apply Z.bits_above_log2; [lia|]. apply Z.log2_lt_pow2; lia.
+Qed.
+
+Lemma odd_half c : c = 2 * Z.shiftr c 1 + (if Z.odd c then 1 else 0).
+Proof.
+  rewrite Z.shiftr_div_pow2 by lia. change (2 ^ 1) with 2.
+  rewrite Zodd_mod. pose proof (Z.mod_pos_bound c 2 ltac:(lia)).
+  destruct (Zeq_bool (c mod 2) 1) eqn:E.
+  - apply Zeq_bool_eq in E. lia.
+  - apply Zeq_bool_neq in E. lia.
+Qed.
+
+Lemma step_inj a b : state32 a -> state32 b -> crc_step a = crc_step b -> a = b.
+Proof.
+  intros Ha Hb H. unfold crc_step in H.
+  pose proof (half_bit31 a Ha) as Ta. pose proof (half_bit31 b Hb) as Tb.
+  assert (TP : Z.testbit POLY 31 = true) by reflexivity.
+  rewrite (odd_half a), (odd_half b).
+  destruct (Z.odd a) eqn:Oa, (Z.odd b) eqn:Ob.
+  - apply lxor_cancel_r in H. rewrite H. reflexivity.
+  - exfalso. apply (f_equal (fun t => Z.testbit t 31)) in H.
+    rewrite Z.lxor_spec, Ta, Tb, TP in H. discriminate.
+  - exfalso. apply (f_equal (fun t => Z.testbit t 31)) in H.
+    rewrite Z.lxor_spec, Ta, Tb, TP in H. discriminate.
+  - rewrite H. reflexivity.
+Qed.
+
+Lemma step8_inj a b : state32 a -> state32 b -> crc_step8 a = crc_step8 b -> a = b.
+Proof.
+  intros Ha Hb H. unfold crc_step8 in H.
+  repeat (apply step_inj in H; [|repeat apply step_range; assumption|repeat apply step_range; assumption]).
+  exact H.
+Qed.
+
+Lemma crc_byte_inj c b c' b' : state32 c -> state32 c' -> byte b -> byte b' ->
+  crc_byte c b = crc_byte c' b' -> Z.lxor c b = Z.lxor c' b'.
+Proof.
+  intros Hc Hc' Hb Hb' H. unfold crc_byte in H.
+  apply step8_inj in H; [exact H| |]; (apply lxor_range; [lia|assumption|apply byte_state; assumption]).
+Qed.
+
+Lemma crc_reg_inj bs : forall s s', state32 s -> state32 s' -> bytes_wf bs ->
+  crc_reg s bs = crc_reg s' bs -> s = s'.
+Proof.
+  induction bs as [|b r IH]; intros s s' Hs Hs' Hw H; [exact H|].
+  inversion Hw; subst. cbn [crc_reg fold_left] in H.
+  apply IH in H; [|apply crc_byte_range; assumption|apply crc_byte_range; assumption|assumption].
+  apply crc_byte_inj in H; try assumption. apply lxor_cancel_r in H. exact H.
+Qed.
+
+Lemma pow2_byte j : 0 <= j < 8 -> byte (2 ^ j) /\ 2 ^ j <> 0.
+Proof.
+  intros Hj. unfold byte.
+  assert (H : j = 0 \/ j = 1 \/ j = 2 \/ j = 3 \/ j = 4 \/ j = 5 \/ j = 6 \/ j = 7) by lia.
+  destruct H as [->|[->|[->|[->|[->|[->|[->| ->]]]]]]]; cbv; repeat split; congruence.
+Qed.
+
+Lemma flip_byte b j : byte b -> 0 <= j < 8 -> byte (Z.lxor b (2 ^ j)) /\ Z.lxor b (2 ^ j) <> b.
+Proof.
+  intros Hb Hj. destruct (pow2_byte j Hj) as [Hp Hn]. split.
+  - unfold byte in *. change 256 with (2 ^ 8). apply lxor_range; [lia| |]; change (2 ^ 8) with 256; lia.
+  - intros E. apply Hn. rewrite <- (Z.lxor_0_r b) in E at 2. apply lxor_cancel_l in E. exact E.
+Qed.
+
+Lemma flip_bit_wf p : forall i j, bytes_wf p -> 0 <= j < 8 -> bytes_wf (flip_bit p i j).
+Proof.
+  induction p as [|b r IH]; intros i j Hw Hj; [constructor|]. inversion Hw; subst.
+  destruct i; cbn [flip_bit]; constructor; try assumption.
+  - apply flip_byte; assumption.
+  - apply IH; assumption.
+Qed.
+
+Lemma flip_bit_length p : forall i j, length (flip_bit p i j) = length p.
+Proof. induction p as [|b r IH]; intros [|i] j; cbn [flip_bit length]; try reflexivity. rewrite IH. reflexivity. Qed.
+
+Lemma crc_reg_flip p : forall i j s, state32 s -> bytes_wf p -> (i < length p)%nat -> 0 <= j < 8 ->
+  crc_reg s (flip_bit p i j) <> crc_reg s p.
+Proof.
+  induction p as [|b r IH]; intros i j s Hs Hw Hi Hj; [cbn in Hi; lia|].
+  inversion Hw; subst. destruct (flip_byte b j ltac:(assumption) Hj) as [Fb Fn].
+  destruct i as [|i]; cbn [flip_bit crc_reg fold_left].
+  - intros E. apply crc_reg_inj in E; [| apply crc_byte_range; assumption | apply crc_byte_range; assumption | assumption].
+    apply crc_byte_inj in E; try assumption. apply lxor_cancel_l in E. exact (Fn E).
+  - apply IH; [apply crc_byte_range; assumption|assumption|cbn in Hi; lia|exact Hj].
+Qed.
+
+Lemma crc32_flip p i j : bytes_wf p -> (i < length p)%nat -> 0 <= j < 8 ->
+  crc32 (flip_bit p i j) <> crc32 p.
+Proof.
+  intros Hw Hi Hj E. unfold crc32 in E. apply lxor_cancel_r in E.
+  exact (crc_reg_flip p i j MASK32 mask_state Hw Hi Hj E).
+Qed.
+
+Lemma crc_value_flip c j : 0 <= j -> Z.lxor c (2 ^ j) <> c.
+Proof.
+  intros Hj E. rewrite <- (Z.lxor_0_r c) in E at 2. apply lxor_cancel_l in E.
+  pose proof (Z.pow_pos_nonneg 2 j ltac:(lia) Hj). lia.
+Qed.
+
+(* ---------------------------------------------------------------- the repaired from_bytes *)
+Section Fixed.
+Variable skip : list Z -> dres (list Z).
+
+Lemma from_decoded_wf p : bytes_wf p -> len p < 18446744073709551616 -> byron_wf (from_decoded p).
+Proof. intros Hp Hl. unfold byron_wf, from_decoded. cbn [fst snd]. auto using crc32_range. Qed.
+
+Lemma from_bytes_roundtrip a r : byron_wf a -> crc32 (fst a) = snd a ->
+  from_bytes skip (byron_to_vec a ++ r) = Ok a.
+Proof.
+  intros Hw Hc. unfold from_bytes. rewrite minicbor_decode_enc by exact Hw.
+  rewrite Hc, Z.eqb_refl. reflexivity.
+Qed.
+
+Lemma from_bytes_rejects a r : byron_wf a -> crc32 (fst a) <> snd a ->
+  from_bytes skip (byron_to_vec a ++ r) = Err E_BYRON_CBOR.
+Proof.
+  intros Hw Hc. unfold from_bytes. rewrite minicbor_decode_enc by exact Hw.
+  destruct (crc32 (fst a) =? snd a) eqn:E; [lia|reflexivity].
+Qed.
+
+(* whatever the encoding (non-canonical heads, indefinite array, other tag, extra
+   elements, trailing bytes): an accepted address carries a matching checksum *)
+Lemma from_bytes_ok_crc bs a : from_bytes skip bs = Ok a -> crc32 (fst a) = snd a.
+Proof.
+  unfold from_bytes. destruct (minicbor_decode skip bs) as [a'| |]; try discriminate.
+  destruct (crc32 (fst a') =? snd a') eqn:E; [|discriminate]. intros H. inversion H; subst. lia.
+Qed.
+
+Lemma from_bytes_never_panics bs : is_panic (from_bytes skip bs) = false.
+Proof.
+  unfold from_bytes, minicbor_decode. destruct (decode_byron skip bs) as [[a r]| |]; try reflexivity.
+  destruct (_ =? _); reflexivity.
+Qed.
+
+Lemma parse_type_8_ok_crc h pl p c :
+  parse_type_8 skip h pl = Ok (C18.Model.Byron p c) -> crc32 p = c.
+Proof.
+  unfold parse_type_8. destruct (from_bytes skip (h :: pl)) as [a| |] eqn:E; try discriminate.
+  intros H. inversion H; subst. apply (from_bytes_ok_crc _ _ E).
+Qed.
+
+Lemma address_from_bytes_ok_crc bs p c :
+  address_from_bytes skip bs = Ok (C18.Model.Byron p c) -> crc32 p = c.
+Proof.
+  unfold address_from_bytes, C18.Model.bytes_to_address. destruct bs as [|h pl]; [discriminate|].
+  cbv zeta.
+  repeat match goal with
+  | |- context [if ?c then _ else _] => destruct c
+  end;
+  try (intros H; exact (parse_type_8_ok_crc _ _ _ _ H));
+  try discriminate;
+  unfold C18.Model.parse_shelley_hh, C18.Model.parse_shelley_ptr, C18.Model.parse_shelley_h, C18.Model.parse_stake, C18.Model.bind;
+  intros H;
+  repeat match type of H with
+  | (if ?c then _ else _) = _ => destruct c
+  | match ?x with _ => _ end = _ => destruct x
+  end; discriminate.
+Qed.
+
+(* first byte of the encoding is 0x82: Address::from_bytes dispatches it to parse_type_8 *)
+Lemma address_from_bytes_byron a : 
+  address_from_bytes skip (byron_to_vec a) =
+  match from_bytes skip (byron_to_vec a) with
+  | Ok b => Ok (C18.Model.Byron (fst b) (snd b)) | Err e => Err e | Panic q => Panic q end.
+Proof. reflexivity. Qed.
+End Fixed.
+
+(* ---------------------------------------------------------------- base58 (oracle) *)
+Section Base58.
+Variable skip : list Z -> dres (list Z).
+Variable b58_encode : list Z -> list Z.
+Variable b58_decode : list Z -> option (list Z).
+(* the base58 0.2.0 decoder has a fixed 132-byte buffer: the premise is only
+   asked (and only true of the crate) up to that length *)
+Hypothesis b58_roundtrip : forall bs, bytes_wf bs -> len bs <= 132 -> b58_decode (b58_encode bs) = Some bs.
+
+Lemma byron_to_vec_wf a : byron_wf a -> bytes_wf (byron_to_vec a).
+Proof.
+  destruct a as [p c]. intros (Hp & Hl & Hc). cbn [fst snd] in *.
+  assert (Hlp : 0 <= len p) by (unfold len; lia).
+  unfold byron_to_vec, e_array, e_tag, e_bytes, e_uint, enc_head_min. cbn [fst snd].
+  repeat (apply Forall_app; split); try exact Hp; apply enc_head_wf, min_width_fits; lia.
+Qed.
+
+Lemma base58_roundtrip_sec a : byron_wf a -> crc32 (fst a) = snd a -> len (byron_to_vec a) <= 132 ->
+  from_base58 skip b58_decode (to_base58 b58_encode a) = Ok a.
+Proof.
+  intros Hw Hc Hl. unfold from_base58, to_base58.
+  rewrite b58_roundtrip by (try apply byron_to_vec_wf; assumption).
+  rewrite <- (app_nil_r (byron_to_vec a)). apply from_bytes_roundtrip; assumption.
+Qed.
+
+Lemma base58_ok_crc s a : from_base58 skip b58_decode s = Ok a -> crc32 (fst a) = snd a.
+Proof.
+  unfold from_base58. destruct (b58_decode s); [|discriminate]. apply from_bytes_ok_crc.
+Qed.
+End Base58.
